@@ -354,7 +354,11 @@ class Impl:
         elif der == "dual":
             try:
                 d = g.get_dual()
-                g = d if d.n_face >= 1 else g.copy()     # a dual without faces is not a grid (C18's domain)
+                # a dual without faces is not a grid (C18's domain); faces with more than 8 corners have no
+                # Exodus element type (ELEMENT_TYPE_DICT; hypothesis c07_exo_elem_ok of the theorems)
+                g = d if d.n_face >= 1 and int(d.n_nodes_per_face.max()) <= 8 else g.copy()
+                if g is d:
+                    del g._ds["n_nodes_per_face"]         # only looked at; not part of the history
             except Exception:
                 g = g.copy()            # not every grid has a dual (partial grids, duplicate nodes)
         return g
@@ -1304,7 +1308,9 @@ def main(ck):
                    "netCDF4 attribute types (str, numbers, numeric arrays storable; bool arrays and objects not)",
                    "numpy: fancy indexing bounds, np.unique(axis=0, return_inverse), list.sort(key=len) stable",
                    "float comparison through order-preserving tokens (the encoders only move, compare and sort coordinates)"]
-    ck.assumptions += ["grid datasets are well formed: node_lon/node_lat (or node_x/y/z) and face_node_connectivity in "
+    ck.assumptions += ["faces have 3..8 corners: _encode_exodus has element types for 2..8 nodes only (KeyError beyond; "
+                       "hypothesis c07_exo_elem_ok), so generated and derived (dual) grids stay within that range",
+                       "grid datasets are well formed: node_lon/node_lat (or node_x/y/z) and face_node_connectivity in "
                        "standard form (C01 owns that), coordinates come in lon/lat pairs",
                        "xyz <-> lon/lat conversions are C04's; C07 compares corner positions as points on the sphere"]
     try:
